@@ -191,6 +191,22 @@ def _collect_apps(fmls, decls):
     return out
 
 
+_OPP = {}
+
+
+def _opposite(s, t):
+    k = (s.get_id(), t.get_id())
+    r = _OPP.get(k)
+    if r is None:
+        z = z3.simplify(s + t)
+        r = (z3.is_rational_value(z) or z3.is_int_value(z)) and frac_of(z) == 0
+        if len(_OPP) > 200000:
+            _OPP.clear()
+        _OPP[k] = (r, s, t)
+        return r
+    return r[0]
+
+
 def uf_lemmas(fmls, pairwise=True, pairwise_limit=400):
     """True facts about SQ, SQRT, EXP for the argument terms occurring in `fmls` (quantifier free)."""
     apps = _collect_apps(fmls, [SQ_F, SQRT_F, EXP_F])
@@ -199,6 +215,10 @@ def uf_lemmas(fmls, pairwise=True, pairwise_limit=400):
     for t in sq:
         lem.append(SQ_F(t) >= 0)
         lem.append((SQ_F(t) == 0) == (t == 0))
+    for i in range(len(sq)):          # SQ(t) = SQ(-t) for syntactically opposite arguments
+        for j in range(i + 1, len(sq)):
+            if _opposite(sq[i], sq[j]):
+                lem.append(SQ_F(sq[i]) == SQ_F(sq[j]))
     npairs = 0
     for i in range(len(sq) if pairwise else 0):
         for j in range(i + 1, len(sq)):
@@ -219,6 +239,11 @@ def uf_lemmas(fmls, pairwise=True, pairwise_limit=400):
         for j in range(i + 1, len(sr)):
             s, t = sr[i], sr[j]
             lem.append(z3.Implies(z3.And(s >= 0, t >= 0), (s <= t) == (SQRT_F(s) <= SQRT_F(t))))
+    if pairwise:
+        for t in sr:            # cross facts: sqrt(t) <= |u|  <=>  t <= u^2
+            for u in sq:
+                lem.append(z3.Implies(t >= 0, (t <= SQ_F(u)) == (SQRT_F(t) <= zabs(u))))
+                lem.append(z3.Implies(t >= 0, (t >= SQ_F(u)) == (SQRT_F(t) >= zabs(u))))
     ex = list(apps['EXP'].values())
     for t in ex:
         lem.append(EXP_F(t) > 0)
